@@ -83,10 +83,23 @@ Proof. destruct st; vm_compute; intros; try reflexivity; discriminate. Qed.
 Lemma mech_holes_accept_l st : mech_chk st = false -> verdict_of mech (witness st) <> VRejected.
 Proof. destruct st; vm_compute; intros; try discriminate. Qed.
 Lemma mech_holes_list : mech_holes =
-  [SIncDecVar; SElemIncDec; SMemberIncDec; SWholeMemberConst; SDerefIncDec; SDerefExprStore; SArrowStore; SPtrMemberConst;
-   SAddrDecl; SAddrSubAssign; SAddrSubDecl; SAddrArg; SPtrCopyAssign; SPtrCopyDecl; SRefParam; SRefLocal; SConstRefStore;
-   SReseatIncDec].
+  [SWholeMemberConst; SDerefExprStore; SPtrMemberConst; SAddrSubAssign; SAddrSubDecl; SAddrArg; SPtrCopyAssign; SPtrCopyDecl;
+   SConstRefStore].
 Proof. vm_compute. reflexivity. Qed.
+
+(* the nine tests added by the repairs c8a1652, a842ca6, 8c94aff, a242434, 38104c4, 29cf056 *)
+Definition repaired_sites : list site :=
+  [SIncDecVar; SElemIncDec; SMemberIncDec; SDerefIncDec; SReseatIncDec; SAddrDecl; SRefParam; SRefLocal; SArrowStore].
+Lemma repaired_sites_reject_l st : In st repaired_sites ->
+  mech_chk st = true /\ verdict_of mech (witness st) = VRejected /\ breaks mech (witness st) = false.
+Proof.
+  intros H. assert (F : forallb (fun st => mech_chk st && verdict_eqb (verdict_of mech (witness st)) VRejected &&
+                                            negb (breaks mech (witness st))) repaired_sites = true) by (vm_compute; reflexivity).
+  rewrite forallb_forall in F. specialize (F st H). apply andb_true_iff in F as [F F3]. apply andb_true_iff in F as [F1 F2].
+  repeat split; auto.
+  - destruct (verdict_of mech (witness st)); cbn in F2; congruence.
+  - destruct (breaks mech (witness st)); cbn in F3; congruence.
+Qed.
 
 (* ------------------------------------------------------------------ the matrix *)
 Definition cell_ok_spec (c : okind * mpath) : bool :=
@@ -125,3 +138,22 @@ Qed.
 Definition mech_matrix_holes : list (okind * mpath) :=
   filter (fun c => match cell_verdict mech true (fst c) (snd c) with Some VRejected | None => false | _ => true end) cells.
 Definition n_applicable : nat := length (filter applicable cells).
+
+(* the cells still not refused after the repairs: address of an element / member of a const aggregate,
+   const members reached through the whole struct or an S*, pointer copies that drop the pointee const *)
+Definition open_cells : list (okind * mpath) :=
+  [(KArray, PAddrDecl); (KArray, PAddrAsg); (KMember, PAssign); (KMember, PDerefSt); (KMember, PArrowSt);
+   (KMember, PAddrDecl); (KMember, PAddrAsg); (KPtc, PAddrDecl); (KPtc, PAddrAsg)].
+Lemma mech_matrix_holes_list : mech_matrix_holes = open_cells.
+Proof. vm_compute. reflexivity. Qed.
+
+Lemma mech_matrix_rejected_l k p c : scenario true k p = Some c -> ~ In (k, p) open_cells -> verdict_of mech c = VRejected.
+Proof.
+  intros H Hn. rewrite <- mech_matrix_holes_list in Hn. unfold mech_matrix_holes in Hn.
+  rewrite filter_In in Hn. unfold cell_verdict in Hn. cbn [fst snd] in Hn. rewrite H in Hn. cbn [option_map] in Hn.
+  destruct (verdict_of mech c); try reflexivity; exfalso; apply Hn; split; auto using cells_complete.
+Qed.
+Lemma mech_matrix_open_l kp : In kp open_cells -> exists c, scenario true (fst kp) (snd kp) = Some c /\ verdict_of mech c = VChanged.
+Proof.
+  intros H. cbn in H. repeat (destruct H as [<-|H]; [eexists; split; [reflexivity|vm_compute; reflexivity]|]). destruct H.
+Qed.
